@@ -18,6 +18,8 @@ type obligation struct {
 	game      *rules.Game // game of the last position command at the time of the go
 	infinite  bool
 	needsStop bool // cannot end by itself: infinite, or no depth limit and no clock
+	clockOnly bool // ends by a clock or movetime limit only (no depth limit): time passing must end it
+	searchOrd int  // number of search tasks named when the go was sent: its own search has a higher ordinal
 	stopStep  int  // step at which 'stop' was delivered (0 = not)
 	goStep    int
 	answered  bool
@@ -121,6 +123,7 @@ type goSpec struct {
 	text      string
 	infinite  bool
 	needsStop bool
+	clockOnly bool
 }
 
 // drawGo draws a go variant; depth limits stay small so that a search ending by itself does so within the budget.
@@ -176,6 +179,7 @@ func (g *uciGUI) drawGo(t *tape.Tape, white bool) goSpec {
 		hasDepth = true
 	}
 	sp.needsStop = sp.infinite || (!hasDepth && !hasClock)
+	sp.clockOnly = hasClock && !hasDepth && !sp.infinite
 	sp.text = strings.TrimSpace("go " + strings.Join(parts, " "))
 	return sp
 }
@@ -417,6 +421,17 @@ func SessionC04(t *tape.Tape) *core.RunResult {
 		res.Digest = fmt.Sprintf("%016x/%d", hashBefore, g.seenLine)
 		return res
 	}
+	if ob := g.open(); ob != nil && ob.clockOnly && ob.stopStep == 0 && !g.dead && !s.outClosed && k.OverBudget() && !k.Ambiguous && s.searchReportedSince(ob.searchOrd) {
+		// The evaluation budget is gone while a go that only a clock can end is open, and its search has
+		// reported an iteration (so a halt has nothing left to wait for). No more searching is needed to
+		// decide it: let the clock pass every limit and the timer tasks run; the search notices at its next poll.
+		if !s.clockSettle(func() bool { g.judge(); return ob.answered || g.dead || s.outClosed }, 80) && !g.dead {
+			res.Violate("C04", "go-never-answered", s.steps, "go #%d (%s) on %q (%s): its search ran until the evaluation budget was spent; then every limit passed on the simulated clock, every timer task ran and the search was let on 80 more times, and still there is no bestmove: a go limited by the clock is answered without stop", ob.idx, ob.text, ob.game.FEN(), w)
+			g.dead = true
+			return finish()
+		}
+		res.Probe("clock-limited-go-settled-after-the-budget")
+	}
 	if s.steps >= s.maxSteps || k.OverBudget() {
 		res.Inconclusive[map[bool]string{true: map[bool]string{true: "ambiguous-timers", false: "evaluation-budget"}[k.Ambiguous], false: "step-budget"}[k.OverBudget()]]++
 		return finish()
@@ -431,6 +446,13 @@ func SessionC04(t *tape.Tape) *core.RunResult {
 		}
 		ok := s.settle(func() bool { g.judge(); return ob.answered || g.dead || s.outClosed }, 600)
 		if !ok && s.budgetHit {
+			if ob.clockOnly && ob.stopStep == 0 && s.afterDeadlineRounds >= 2 && !k.Ambiguous {
+				// every instant at which its limit could bite has passed on the simulated clock, every timer task
+				// has run (twice over), and the search still went on until the evaluation budget was gone
+				res.Violate("C04", "go-never-answered", s.steps, "go #%d (%s) on %q (%s): its time limit has long passed on the simulated clock and every timer task has run, yet the search goes on (stopped looking when the evaluation budget was spent): a go limited by the clock is answered without stop", ob.idx, ob.text, ob.game.FEN(), w)
+				g.dead = true
+				return finish()
+			}
 			res.Inconclusive["evaluation-budget"]++
 			return finish()
 		}
@@ -454,7 +476,7 @@ func (g *uciGUI) sendGo(sp goSpec) string {
 		prev.closed = true
 	}
 	g.s.frugal = sp.needsStop
-	ob := &obligation{idx: len(g.obs) + 1, text: sp.text, game: g.game.Clone(), infinite: sp.infinite, needsStop: sp.needsStop, goStep: g.s.steps}
+	ob := &obligation{idx: len(g.obs) + 1, text: sp.text, game: g.game.Clone(), infinite: sp.infinite, needsStop: sp.needsStop, clockOnly: sp.clockOnly, goStep: g.s.steps, searchOrd: g.s.k.RoleCount("search")}
 	g.obs = append(g.obs, ob)
 	if sp.infinite {
 		g.s.res.Probe("go-infinite")
